@@ -15,9 +15,6 @@ Definition view (s : fsh * list flo) : option ((phase * dirst) * (phase * dirst)
   | _ => None
   end.
 
-Lemma dirst_eta x : {| d_buf := d_buf x; d_src := d_src x; d_snk := d_snk x |} = x.
-Proof. destruct x; reflexivity. Qed.
-
 Lemma step_view s a b i : view s = Some (a, b) ->
   view (sys_step fsh flo (fstep false) s i) =
   Some (match i with 0 => (solo a, b) | 1 => (a, solo b) | _ => (a, b) end).
@@ -27,12 +24,12 @@ Proof.
   intros H. injection H as <- <-. destruct sh as [u d].
   destruct i as [|[|i]]; unfold sys_step; cbn [snd fst nth_error].
   - unfold fstep, solo. cbn [fst snd bufdir getd sh_up sh_down].
-    destruct p0 as [|n|]; cbn [upd_nth fst snd].
+    destruct p0 as [|n l|]; cbn [upd_nth fst snd].
     + destruct (d_src u) as [|c t]; cbn [upd_nth fst snd setd getd sh_up sh_down with_src with_buf d_buf d_src d_snk]; reflexivity.
     + cbn [setd getd sh_up sh_down]. reflexivity.
     + reflexivity.
   - unfold fstep, solo. cbn [fst snd bufdir getd sh_up sh_down].
-    destruct p1 as [|n|]; cbn [upd_nth fst snd].
+    destruct p1 as [|n l|]; cbn [upd_nth fst snd].
     + destruct (d_src d) as [|c t]; cbn [upd_nth fst snd setd getd sh_up sh_down with_src with_buf d_buf d_src d_snk]; reflexivity.
     + cbn [setd getd sh_up sh_down]. reflexivity.
     + reflexivity.
@@ -51,117 +48,222 @@ Proof.
     rewrite ?iter_shift; reflexivity.
 Qed.
 
-Lemma view_init bu bd up down :
-  view (finit bu bd up down) = Some ((PRead, {| d_buf := bu; d_src := up; d_snk := [] |}), (PRead, {| d_buf := bd; d_src := down; d_snk := [] |})).
+Lemma view_init eu ed bu bd up down :
+  view (finit_e eu ed bu bd up down) = Some ((PRead, dinit bu up eu), (PRead, dinit bd down ed)).
 Proof. reflexivity. Qed.
 
-Lemma view_sinks s a b : view s = Some (a, b) -> sink_up s = d_snk (snd a) /\ sink_down s = d_snk (snd b).
+Lemma view_fields s a b : view s = Some (a, b) ->
+  sink_up s = d_snk (snd a) /\ sink_down s = d_snk (snd b) /\ phase_of 0 s = fst a /\ phase_of 1 s = fst b /\
+  sent_counter s = d_rcnt (snd a) /\ recv_counter s = d_wcnt (snd b).
 Proof.
-  destruct s as [sh los]. unfold view, sink_up, sink_down. cbn [fst snd].
-  destruct los as [|[[|] p0] [|[[|] p1] [|x los]]]; try discriminate. intros H. injection H as <- <-. auto.
-Qed.
-Lemma view_phases s a b : view s = Some (a, b) -> phase_of 0 s = fst a /\ phase_of 1 s = fst b.
-Proof.
-  destruct s as [sh los]. unfold view, phase_of. cbn [fst snd].
-  destruct los as [|[[|] p0] [|[[|] p1] [|x los]]]; try discriminate. intros H. injection H as <- <-. auto.
+  destruct s as [sh los]. unfold view, sink_up, sink_down, phase_of, sent_counter, recv_counter. cbn [fst snd].
+  destruct los as [|[[|] p0] [|[[|] p1] [|x los]]]; try discriminate. intros H. injection H as <- <-. cbn. auto 10.
 Qed.
 
 (* NON-INTERFERENCE: what a direction has delivered after ANY schedule is what its own loop delivers on its own after
    as many steps as the schedule gave it — a function of its own source (and step count) only *)
+Theorem directions_independent_e eu ed bu bd up down sched :
+  sink_up (frun false (finit_e eu ed bu bd up down) sched)
+    = d_snk (snd (Nat.iter (count_occ Nat.eq_dec sched 0) solo (PRead, dinit bu up eu))) /\
+  sink_down (frun false (finit_e eu ed bu bd up down) sched)
+    = d_snk (snd (Nat.iter (count_occ Nat.eq_dec sched 1) solo (PRead, dinit bd down ed))).
+Proof.
+  pose proof (run_view sched _ _ _ (view_init eu ed bu bd up down)) as Hv.
+  destruct (view_fields _ _ _ Hv) as (H1 & H2 & _). cbn [snd] in *. auto.
+Qed.
+
 Theorem directions_independent bu bd up down sched :
   sink_up (frun false (finit bu bd up down) sched)
-    = d_snk (snd (Nat.iter (count_occ Nat.eq_dec sched 0) solo (PRead, {| d_buf := bu; d_src := up; d_snk := [] |}))) /\
+    = d_snk (snd (Nat.iter (count_occ Nat.eq_dec sched 0) solo (PRead, dinit bu up false))) /\
   sink_down (frun false (finit bu bd up down) sched)
-    = d_snk (snd (Nat.iter (count_occ Nat.eq_dec sched 1) solo (PRead, {| d_buf := bd; d_src := down; d_snk := [] |}))).
+    = d_snk (snd (Nat.iter (count_occ Nat.eq_dec sched 1) solo (PRead, dinit bd down false))).
+Proof. exact (directions_independent_e false false bu bd up down sched). Qed.
+
+Corollary upload_ignores_download eu ed ed' bu bd bd' up down down' sched :
+  sink_up (frun false (finit_e eu ed bu bd up down) sched) = sink_up (frun false (finit_e eu ed' bu bd' up down') sched).
 Proof.
-  pose proof (run_view sched _ _ _ (view_init bu bd up down)) as Hv.
-  destruct (view_sinks _ _ _ Hv) as [H1 H2]. cbn [snd] in *. auto.
+  rewrite (proj1 (directions_independent_e eu ed bu bd up down sched)), (proj1 (directions_independent_e eu ed' bu bd' up down' sched)). reflexivity.
+Qed.
+Corollary download_ignores_upload eu eu' ed bu bu' bd up up' down sched :
+  sink_down (frun false (finit_e eu ed bu bd up down) sched) = sink_down (frun false (finit_e eu' ed bu' bd up' down) sched).
+Proof.
+  rewrite (proj2 (directions_independent_e eu ed bu bd up down sched)), (proj2 (directions_independent_e eu' ed bu' bd up' down sched)). reflexivity.
 Qed.
 
-Corollary upload_ignores_download bu bd bd' up down down' sched :
-  sink_up (frun false (finit bu bd up down) sched) = sink_up (frun false (finit bu bd' up down') sched).
-Proof.
-  rewrite (proj1 (directions_independent bu bd up down sched)), (proj1 (directions_independent bu bd' up down' sched)). reflexivity.
-Qed.
-Corollary download_ignores_upload bu bu' bd up up' down sched :
-  sink_down (frun false (finit bu bd up down) sched) = sink_down (frun false (finit bu' bd up' down) sched).
-Proof.
-  rewrite (proj2 (directions_independent bu bd up down sched)), (proj2 (directions_independent bu' bd up' down sched)). reflexivity.
-Qed.
-
-(* ---- one loop: conservation (unchanged, in order) and completion ---- *)
+(* ---- one loop: conservation (unchanged, in order), counters, completion ---- *)
 Definition inflight (x : phase * dirst) : list byte :=
-  match fst x with PWrite n => firstn n (d_buf (snd x)) | _ => [] end.
+  match fst x with PWrite n _ => firstn n (d_buf (snd x)) | _ => [] end.
 Definition conserved (total : list byte) (x : phase * dirst) : Prop :=
-  d_snk (snd x) ++ inflight x ++ concat (d_src (snd x)) = total /\ (fst x = PDone -> d_src (snd x) = []).
+  d_snk (snd x) ++ inflight x ++ concat (d_src (snd x)) = total /\
+  (fst x = PDone -> d_src (snd x) = []) /\
+  (forall n, fst x = PWrite n true -> d_src (snd x) = []) /\
+  d_rcnt (snd x) = length (d_snk (snd x)) + length (inflight x) /\
+  d_wcnt (snd x) = length (d_snk (snd x)).
 
 Lemma solo_conserved total x : conserved total x -> conserved total (solo x).
 Proof.
-  destruct x as [ph ds]. unfold conserved, solo, inflight. cbn [fst snd]. intros [H Hd].
-  destruct ph as [|n|]; cbn [fst snd].
-  - destruct (d_src ds) as [|c t] eqn:Es; cbn [fst snd d_snk d_src d_buf with_buf with_src].
-    + rewrite Es. split; [exact H|reflexivity].
-    + rewrite firstn_fill. cbn [concat app] in *. split; [exact H|discriminate].
-  - cbn [d_snk d_src d_buf with_snk]. split; [|discriminate]. rewrite <- H. cbn [app]. now rewrite <- app_assoc.
-  - split; [exact H|exact Hd].
+  destruct x as [ph ds]. unfold conserved, solo, inflight. cbn [fst snd]. intros (H & Hd & Hl & Hr & Hw).
+  destruct ph as [|n l|]; cbn [fst snd].
+  - destruct (d_src ds) as [|c t] eqn:Es; cbn [fst snd d_snk d_src d_buf d_rcnt d_wcnt with_buf with_src].
+    + rewrite Es. cbn [length] in *. repeat split; auto; try discriminate.
+    + rewrite firstn_fill. cbn [concat app length] in *. split; [exact H|]. split; [discriminate|].
+      split; [|split; lia].
+      intros n Hn. injection Hn as _ Hn. unfold is_last in Hn. apply andb_prop in Hn. destruct Hn as [_ Hn]. destruct t; [reflexivity|discriminate].
+  - cbn [d_snk d_src d_buf d_rcnt d_wcnt with_snk]. rewrite app_length.
+    destruct l; cbn [app length].
+    + split; [rewrite <- H; now rewrite <- app_assoc|]. split; [intros _; apply (Hl n eq_refl)|].
+      split; [intros m Hm; discriminate|]. lia.
+    + split; [rewrite <- H; now rewrite <- app_assoc|]. split; [discriminate|].
+      split; [intros m Hm; discriminate|]. lia.
+  - repeat split; auto.
 Qed.
 
 Lemma iter_conserved total n x : conserved total x -> conserved total (Nat.iter n solo x).
 Proof. intros H. induction n as [|n IH]; [exact H|]. cbn [Nat.iter nat_rect]. apply solo_conserved, IH. Qed.
 
+Lemma dinit_conserved b src e : conserved (concat src) (PRead, dinit b src e).
+Proof. unfold conserved, inflight, dinit. cbn. repeat split; auto; discriminate. Qed.
+
 Lemma iter_done n ds : Nat.iter n solo (PDone, ds) = (PDone, ds).
 Proof. induction n as [|n IH]; [reflexivity|]. rewrite iter_shift. exact IH. Qed.
 
-Lemma solo_drain src : forall buf snk k,
-  exists buf', Nat.iter (2 * length src + 1 + k) solo (PRead, {| d_buf := buf; d_src := src; d_snk := snk |})
-               = (PDone, {| d_buf := buf'; d_src := []; d_snk := snk ++ concat src |}).
+(* enough steps end the loop, whether or not the source reports its end together with the last chunk *)
+Lemma solo_drain_done src : forall buf e snk rc wc k,
+  fst (Nat.iter (2 * length src + 1 + k) solo
+         (PRead, {| d_buf := buf; d_src := src; d_eofl := e; d_snk := snk; d_rcnt := rc; d_wcnt := wc |})) = PDone.
 Proof.
-  induction src as [|c t IH]; intros buf snk k.
-  - exists buf. cbn [length Nat.mul Nat.add]. rewrite iter_shift. unfold solo at 2. cbn [fst snd d_src].
-    rewrite iter_done. cbn [concat]. now rewrite app_nil_r.
+  induction src as [|c t IH]; intros buf e snk rc wc k.
+  - cbn [length Nat.mul Nat.add]. rewrite iter_shift. unfold solo at 2. cbn [fst snd d_src]. now rewrite iter_done.
   - replace (2 * length (c :: t) + 1 + k) with (S (S (2 * length t + 1 + k))) by (cbn [length]; lia).
-    rewrite !iter_shift. unfold solo at 3. cbn [fst snd d_src with_src with_buf d_buf d_snk].
-    unfold solo at 2. cbn [fst snd with_snk with_buf with_src d_buf d_src d_snk]. rewrite firstn_fill.
-    destruct (IH (fill c buf) (snk ++ c) k) as (buf' & E). unfold with_snk, with_buf, with_src. cbn [d_buf d_src d_snk]. rewrite E. exists buf'. cbn [concat]. now rewrite app_assoc.
+    rewrite !iter_shift. unfold solo at 3. cbn [fst snd d_src].
+    unfold solo at 2. cbn [fst snd]. unfold with_snk, with_buf, with_src. cbn [d_buf d_src d_eofl d_snk d_rcnt d_wcnt].
+    destruct (is_last _ t); [now rewrite iter_done|]. apply IH.
 Qed.
 
 (* every schedule: each direction has delivered a prefix of its own source, byte for byte (sink ++ in flight ++ not yet
-   read = source); a direction whose loop has ended has delivered all of it *)
+   read = source); a direction whose loop has ended has delivered all of it; the byte counters agree with the bytes *)
+Theorem forward_conserves_e eu ed bu bd up down sched :
+  let s := frun false (finit_e eu ed bu bd up down) sched in
+  (exists rest, sink_up s ++ rest = concat up) /\ (exists rest, sink_down s ++ rest = concat down) /\
+  (phase_of 0 s = PDone -> sink_up s = concat up /\ sent_counter s = length (concat up)) /\
+  (phase_of 1 s = PDone -> sink_down s = concat down) /\
+  recv_counter s = length (sink_down s) /\ length (sink_up s) <= sent_counter s.
+Proof.
+  cbn zeta. pose proof (run_view sched _ _ _ (view_init eu ed bu bd up down)) as Hv.
+  destruct (view_fields _ _ _ Hv) as (S1 & S2 & P1 & P2 & R1 & W2). cbn [fst snd] in *.
+  pose proof (iter_conserved _ (count_occ Nat.eq_dec sched 0) _ (dinit_conserved bu up eu)) as (C1 & D1 & _ & Rc1 & _).
+  pose proof (iter_conserved _ (count_occ Nat.eq_dec sched 1) _ (dinit_conserved bd down ed)) as (C2 & D2 & _ & _ & Wc2).
+  rewrite S1, S2, P1, P2, R1, W2.
+  split; [eexists; exact C1|]. split; [eexists; exact C2|].
+  split; [|split; [|split; [exact Wc2|lia]]]; intros Hd.
+  - specialize (D1 Hd). unfold inflight in *. rewrite Hd in *. rewrite D1 in C1. cbn [concat app length] in *.
+    rewrite !app_nil_r in C1. rewrite Rc1, C1. split; [reflexivity|lia].
+  - specialize (D2 Hd). unfold inflight in C2. rewrite Hd, D2 in C2. cbn [concat app] in C2. now rewrite !app_nil_r in C2.
+Qed.
+
 Theorem forward_conserves bu bd up down sched :
   let s := frun false (finit bu bd up down) sched in
   (exists rest, sink_up s ++ rest = concat up) /\ (exists rest, sink_down s ++ rest = concat down) /\
   (phase_of 0 s = PDone -> sink_up s = concat up) /\ (phase_of 1 s = PDone -> sink_down s = concat down).
 Proof.
-  cbn zeta. pose proof (run_view sched _ _ _ (view_init bu bd up down)) as Hv.
-  destruct (view_sinks _ _ _ Hv) as [S1 S2]. destruct (view_phases _ _ _ Hv) as [P1 P2]. cbn [fst snd] in *.
-  assert (C1 : conserved (concat up) (PRead, {| d_buf := bu; d_src := up; d_snk := [] |})) by (split; [reflexivity|discriminate]).
-  assert (C2 : conserved (concat down) (PRead, {| d_buf := bd; d_src := down; d_snk := [] |})) by (split; [reflexivity|discriminate]).
-  apply (iter_conserved _ (count_occ Nat.eq_dec sched 0)) in C1. apply (iter_conserved _ (count_occ Nat.eq_dec sched 1)) in C2.
-  destruct C1 as [C1 D1]. destruct C2 as [C2 D2]. rewrite S1, S2, P1, P2.
-  split; [eexists; exact C1|]. split; [eexists; exact C2|].
-  split; intros Hd.
-  - specialize (D1 Hd). unfold inflight in C1. rewrite Hd, D1 in C1. cbn [concat app] in C1. now rewrite !app_nil_r in C1.
-  - specialize (D2 Hd). unfold inflight in C2. rewrite Hd, D2 in C2. cbn [concat app] in C2. now rewrite !app_nil_r in C2.
+  cbn zeta. destruct (forward_conserves_e false false bu bd up down sched) as (A & B & C & D & _).
+  split; [exact A|]. split; [exact B|]. split; [intros H; apply (C H)|exact D].
 Qed.
 
-(* completion: a schedule that gives a direction 2 steps per chunk plus one (the EOF Read) ends it with everything delivered,
-   however the other direction's steps are interleaved with it *)
+(* completion: a schedule that gives a direction 2 steps per chunk plus one ends it with everything delivered and counted,
+   however the other direction's steps are interleaved with it, and WHETHER OR NOT the sources hand out their last
+   chunk together with io.EOF *)
+Theorem forward_completes_e eu ed bu bd up down sched :
+  (2 * length up + 1 <= count_occ Nat.eq_dec sched 0 ->
+     phase_of 0 (frun false (finit_e eu ed bu bd up down) sched) = PDone /\
+     sink_up (frun false (finit_e eu ed bu bd up down) sched) = concat up /\
+     sent_counter (frun false (finit_e eu ed bu bd up down) sched) = length (concat up)) /\
+  (2 * length down + 1 <= count_occ Nat.eq_dec sched 1 ->
+     phase_of 1 (frun false (finit_e eu ed bu bd up down) sched) = PDone /\
+     sink_down (frun false (finit_e eu ed bu bd up down) sched) = concat down /\
+     recv_counter (frun false (finit_e eu ed bu bd up down) sched) = length (concat down)).
+Proof.
+  pose proof (forward_conserves_e eu ed bu bd up down sched) as C. cbn zeta in C.
+  destruct C as (_ & _ & C1 & C2 & C3 & _).
+  pose proof (run_view sched _ _ _ (view_init eu ed bu bd up down)) as Hv.
+  destruct (view_fields _ _ _ Hv) as (_ & _ & P1 & P2 & _). cbn [fst snd] in *.
+  split; intros Hc.
+  - assert (Hd : phase_of 0 (frun false (finit_e eu ed bu bd up down) sched) = PDone).
+    { rewrite P1. pose proof (solo_drain_done up bu eu [] 0 0 (count_occ Nat.eq_dec sched 0 - (2 * length up + 1))) as E.
+      replace (2 * length up + 1 + (count_occ Nat.eq_dec sched 0 - (2 * length up + 1))) with (count_occ Nat.eq_dec sched 0) in E by lia.
+      exact E. }
+    destruct (C1 Hd). auto.
+  - assert (Hd : phase_of 1 (frun false (finit_e eu ed bu bd up down) sched) = PDone).
+    { rewrite P2. pose proof (solo_drain_done down bd ed [] 0 0 (count_occ Nat.eq_dec sched 1 - (2 * length down + 1))) as E.
+      replace (2 * length down + 1 + (count_occ Nat.eq_dec sched 1 - (2 * length down + 1))) with (count_occ Nat.eq_dec sched 1) in E by lia.
+      exact E. }
+    rewrite C3, (C2 Hd). auto.
+Qed.
+
 Theorem forward_completes bu bd up down sched :
   (2 * length up + 1 <= count_occ Nat.eq_dec sched 0 ->
      phase_of 0 (frun false (finit bu bd up down) sched) = PDone /\ sink_up (frun false (finit bu bd up down) sched) = concat up) /\
   (2 * length down + 1 <= count_occ Nat.eq_dec sched 1 ->
      phase_of 1 (frun false (finit bu bd up down) sched) = PDone /\ sink_down (frun false (finit bu bd up down) sched) = concat down).
 Proof.
-  pose proof (run_view sched _ _ _ (view_init bu bd up down)) as Hv.
-  destruct (view_sinks _ _ _ Hv) as [S1 S2]. destruct (view_phases _ _ _ Hv) as [P1 P2]. cbn [fst snd] in *.
-  split; intros Hc.
-  - destruct (solo_drain up bu [] (count_occ Nat.eq_dec sched 0 - (2 * length up + 1))) as (b' & E).
-    replace (2 * length up + 1 + (count_occ Nat.eq_dec sched 0 - (2 * length up + 1))) with (count_occ Nat.eq_dec sched 0) in E by lia.
-    rewrite S1, P1, E. auto.
-  - destruct (solo_drain down bd [] (count_occ Nat.eq_dec sched 1 - (2 * length down + 1))) as (b' & E).
-    replace (2 * length down + 1 + (count_occ Nat.eq_dec sched 1 - (2 * length down + 1))) with (count_occ Nat.eq_dec sched 1) in E by lia.
-    rewrite S2, P2, E. auto.
+  destruct (forward_completes_e false false bu bd up down sched) as [A B].
+  split; intros H; [destruct (A H) as (X & Y & _)|destruct (B H) as (X & Y & _)]; auto.
 Qed.
+
+(* ---- the source as a byte string behind the chunk oracle of Base/Chunks.v ---- *)
+Lemma oracle_chunks_concat cap : (0 < cap)%N -> forall fuel r, length (rest r) <= fuel -> concat (oracle_chunks fuel cap r) = rest r.
+Proof.
+  intros Hc. induction fuel as [|f IH]; intros r Hf.
+  - destruct (rest r); [reflexivity|cbn in Hf; lia].
+  - cbn [oracle_chunks]. destruct (read1 cap r) as [[got r']|] eqn:E.
+    + apply read1_progress in E; [|exact Hc]. destruct E as (Hg & _ & Hr & _).
+      cbn [concat]. rewrite IH; [now rewrite Hr|]. rewrite Hr, app_length in Hf. lia.
+    + apply read1_none in E. now rewrite E.
+Qed.
+
+Lemma oracle_chunks_length cap : (0 < cap)%N -> forall fuel r, length (oracle_chunks fuel cap r) <= length (rest r).
+Proof.
+  intros Hc. induction fuel as [|f IH]; intros r; [cbn; lia|].
+  cbn [oracle_chunks]. destruct (read1 cap r) as [[got r']|] eqn:E; [|cbn; lia].
+  apply read1_progress in E; [|exact Hc]. destruct E as (Hg & _ & Hr & _).
+  cbn [length]. specialize (IH r'). rewrite Hr, app_length. lia.
+Qed.
+
+(* THE statement asked for: the local source is the byte string `rest r` handed out by ANY chunk oracle r (any cut list,
+   carry mode and end kind; any positive buffer size), with its last chunk carrying io.EOF or not (eofl); once the upload
+   loop has had its steps — interleaved in any way with the download loop — the peer has been handed exactly those
+   bytes and the traffic counter equals their number *)
+Theorem upload_delivers_any_chunking_any_eof (cap : N) (r : rd) (eofl ed : bool) bu bd down sched :
+  (0 < cap)%N ->
+  2 * length (rest r) + 1 <= count_occ Nat.eq_dec sched 0 ->
+  sink_up (frun false (finit_e eofl ed bu bd (oracle_chunks (length (rest r)) cap r) down) sched) = rest r /\
+  sent_counter (frun false (finit_e eofl ed bu bd (oracle_chunks (length (rest r)) cap r) down) sched) = length (rest r).
+Proof.
+  intros Hc Hn. set (up := oracle_chunks (length (rest r)) cap r).
+  assert (Hcat : concat up = rest r) by (apply (oracle_chunks_concat cap Hc); lia).
+  assert (Hl : length up <= length (rest r)) by (apply (oracle_chunks_length cap Hc)).
+  destruct (forward_completes_e eofl ed bu bd up down sched) as [A _].
+  destruct A as (_ & A2 & A3); [lia|]. rewrite A2, A3, Hcat. auto.
+Qed.
+
+(* ... hence the delivered stream does not depend on the cut list, nor on whether the final chunk carries io.EOF *)
+Corollary eof_flag_irrelevant (cap : N) (r r' : rd) (eofl eofl' ed ed' : bool) bu bu' bd bd' down down' sched sched' :
+  (0 < cap)%N -> rest r = rest r' ->
+  2 * length (rest r) + 1 <= count_occ Nat.eq_dec sched 0 -> 2 * length (rest r) + 1 <= count_occ Nat.eq_dec sched' 0 ->
+  sink_up (frun false (finit_e eofl ed bu bd (oracle_chunks (length (rest r)) cap r) down) sched) =
+  sink_up (frun false (finit_e eofl' ed' bu' bd' (oracle_chunks (length (rest r')) cap r') down') sched').
+Proof.
+  intros Hc Hr H1 H2.
+  rewrite (proj1 (upload_delivers_any_chunking_any_eof cap r eofl ed bu bd down sched Hc H1)).
+  rewrite Hr in H2. rewrite (proj1 (upload_delivers_any_chunking_any_eof cap r' eofl' ed' bu' bd' down' sched' Hc H2)). exact Hr.
+Qed.
+
+(* a wrapper that drops the bytes returned together with io.EOF (the shape of a broken CountingReadWriter.Read) would be
+   visible exactly here: model it as the last chunk never entering the loop *)
+Lemma dropping_last_chunk_refuted :
+  exists up sched, sink_up (frun false (finit_e true false [] [] (removelast up) []) sched) <> concat up /\
+                   2 * length up + 1 <= count_occ Nat.eq_dec sched 0.
+Proof. exists [[1;2]%N; [3]%N], [0;0;0;0;0]. split; [vm_compute; discriminate|vm_compute; lia]. Qed.
 
 (* ---- the shared-buffer design is refuted: upload Read, download Read, upload Write ---- *)
 Lemma shared_buffer_refuted :
@@ -177,3 +279,9 @@ Lemma forward_example :
   let s := frun false (finit [9;9]%N [] [[1;2;3]; [4]]%N [[7;8]]%N) [0; 1; 0; 0; 1; 7; 1; 0; 0] in
   sink_up s = [1;2;3;4]%N /\ sink_down s = [7;8]%N /\ phase_of 0 s = PDone /\ phase_of 1 s = PDone.
 Proof. vm_compute. auto. Qed.
+
+Lemma forward_eof_example :
+  let s := frun false (finit_e true true [] [] [[1;2;3]; [4]]%N [[7;8]]%N) [0; 1; 0; 0; 1; 0] in
+  sink_up s = [1;2;3;4]%N /\ sink_down s = [7;8]%N /\ phase_of 0 s = PDone /\ phase_of 1 s = PDone /\
+  sent_counter s = 4 /\ recv_counter s = 2.
+Proof. vm_compute. auto 10. Qed.
